@@ -98,6 +98,8 @@ def gen_c12(rng, big=False):
         prog["open_after"] = rng.choice([0.5, 2.0, 4.0])
     if rng.random() < 0.1:
         prog["double_close"] = True
+    if life == "serve" and rng.random() < 0.15:
+        prog["second_server"] = True
     return prog
 
 
@@ -129,6 +131,7 @@ def parse(program, s, run):
     h.life = []
     h.end_alive = None
     h.fileno = None
+    h.second_fileno = None
     h.n = len(s.log)
     h.clients_done = INF
     h.close_called = INF
@@ -160,6 +163,8 @@ def parse(program, s, run):
             h.end_alive = ev[3]
         elif kind == "listener.fileno":
             h.fileno = ev[3]
+        elif kind == "second.fileno":
+            h.second_fileno = ev[3]
         elif kind == "clients.done":
             h.clients_done = idx
     # wire: per connection request / response texts
@@ -237,6 +242,8 @@ def analyse_c12(program, s, run, verdict):
     if program["server"]["kind"] != "dispatcher":
         if h.fileno is not None and h.fileno != -1:
             v.append(Violation("C12", "socket-closed", "listener-open", "listening socket still open after server_close()"))
+        if h.second_fileno is not None and h.second_fileno != -1:
+            v.append(Violation("C12", "socket-closed", "second-listener-open", "listening socket of the second server still open after its server_close()"))
         if h.end_alive:
             names = sorted(set(n for _, n in h.end_alive))
             v.append(Violation("C12", "workers-terminate", "alive:%s" % "+".join(x.split("-")[0] for x in names),
@@ -337,6 +344,8 @@ class C12Scenario(object):
             p["client_aborted_connection"] = 1
         if program["server"].get("npool") == "shared":
             p["shared_request_and_notification_pool"] = 1
+        if s.faults.get("close_with_unread_data") or s.faults.get("write_to_closed_peer"):
+            p["connection_died_under_the_handler"] = 1
         stats = {"steps": s.step, "switches": s.nswitch, "simtime": s.now, "verdict": verdict.kind if verdict else None,
                  "faults": dict(s.faults), "probes": p,
                  "states": set([(program["server"]["kind"], life, min(mx, 3), len(program["clients"]))]),
@@ -379,6 +388,10 @@ class C12Scenario(object):
         if p.get("double_close"):
             q = copy.deepcopy(p)
             del q["double_close"]
+            yield q
+        if p.get("second_server"):
+            q = copy.deepcopy(p)
+            del q["second_server"]
             yield q
         for ci in range(len(p["clients"])):
             if p["clients"][ci].get("version") is not None:
